@@ -7,7 +7,7 @@ from pathlib import Path
 from kappadata.utils.logging import log
 from .copying_utils import create_folder_with_file
 from .copying_utils import folder_contains_mostly_zips, run_unzip_jobs
-from .copying_utils import delete_folder_content
+from .copying_utils import delete_folder_content, zip_path_of
 
 
 @dataclass
@@ -20,7 +20,7 @@ class CopyFolderResult:
 def _check_src_path(src_path):
     if src_path.exists() and src_path.is_dir():
         return True
-    if src_path.with_suffix(".zip").exists():
+    if zip_path_of(src_path).exists():
         return True
     return False
 
@@ -94,11 +94,11 @@ def copy_folder_from_global_to_local(
             log(log_fn, f"copying files of '{src_path}' to '{dst_path}'")
             # copy folder (dirs_exist_ok=True because dst_path is created for start_copy_file)
             shutil.copytree(src_path, dst_path, dirs_exist_ok=True)
-    elif src_path.with_suffix(".zip").exists():
+    elif zip_path_of(src_path).exists():
         source_format = "zip"
         # extract zip
-        log(log_fn, f"extracting '{src_path.with_suffix('.zip')}' to '{dst_path}'")
-        with zipfile.ZipFile(src_path.with_suffix(".zip")) as f:
+        log(log_fn, f"extracting '{zip_path_of(src_path)}' to '{dst_path}'")
+        with zipfile.ZipFile(zip_path_of(src_path)) as f:
             f.extractall(dst_path)
     else:
         raise NotImplementedError
